@@ -23,6 +23,10 @@ func (h *Handshake) Send(conn net.Conn) error {
 	}
 
 	_, err := conn.Write(data)
+	// 截止时间只约束握手本身：不清除的话，连接建立 10 秒后的每次写入都会超时失败
+	if resetErr := conn.SetWriteDeadline(time.Time{}); err == nil {
+		err = resetErr
+	}
 	return err
 }
 
@@ -33,6 +37,10 @@ func (h *Handshake) Wait(conn net.Conn) error {
 	}
 
 	if _, err := conn.Read(buf); err != nil {
+		return err
+	}
+	// 截止时间只约束握手本身：不清除的话，读循环会在连接建立 10 秒后超时并关闭连接
+	if err := conn.SetReadDeadline(time.Time{}); err != nil {
 		return err
 	}
 	reader := messages.NewReaderFromPool(buf)
